@@ -32,12 +32,14 @@ def text(st):
         "G = %d\nGL = [%d]\n" % (st["G"], st["GL"])
         + "%s\ndef g(x):\n    return x * %d\n\n" % (gdeco, st["GC"])
         + "@m.memento_function\ndef q(x):\n    return x + %d\n\n" % st["QC"]
-        + "def h(x, *, k=%d):\n    return g(x) + G + GL[0] + k + %d\n\n" % (st["KW"], st["HC"])
+        # (decoys: nested scopes binding the very names the enclosing function uses from the module - an inner binding must not hide
+        #  the outer reference from the dependency analysis)
+        + "def h(x, *, k=%d):\n    shadow = lambda G, g, GL: 0\n    return g(x) + G + GL[0] + k + %d\n\n" % (st["KW"], st["HC"])
         + "@m.memento_function\ndef f(x, d=%d):\n" % st["D"]
         + "    _trace.append('f')\n"
         + "    t = (%d, 2)\n" % st["TC"]
         + "    lam = lambda y: y + %d\n" % st["LC"]
-        + "    def inner(y, z=%d):\n        return y + z\n" % st["NC"]
+        + "    def inner(y, z=%d):\n        h = y\n        return h + z\n" % st["NC"]
         + "    s = 1 if 'p' in {'a', %r} else 0\n" % st["SE"]
         + "    return h(x) + d + t[0] + lam(0) + inner(0) + s + %d%s%s\n" % (st["FC"], edge, hidden)
     )
@@ -102,7 +104,7 @@ def _deliver_inprocess(prog, st, edit):
 STORES = ["memory", "fs", "fs+cache:1"]
 
 
-def _histories(e1, e2, E, delivery, store, via_clone, gv_explicit, hidden):
+def _histories(e1, e2, E, delivery, store, via_clone, gv_explicit, hidden, revert=False):
     st = dict(INIT)
     if gv_explicit:
         st["GV"] = "1"
@@ -152,6 +154,29 @@ def _histories(e1, e2, E, delivery, store, via_clone, gv_explicit, hidden):
             n1 = len(prog.trace)
             out2 = run()
             check("second-run-after-edit-is-memoized", len(prog.trace) == n1 and out2 == out, (out, out2))
+            if revert and k == E - 1:
+                # the edit is taken back (A -> B -> A): the program means what it meant before - and then applied once more
+                cover("edit-reverted")
+                before = dict(st)
+                st_prev = dict(st)
+                st_prev[edit[1]] = (INIT[edit[1]] if not (edit[1] == "GV" and gv_explicit) else "1")
+                if edit[0] == "explicit-version-and-body-of-g":
+                    st_prev["GC"] = st_prev["GC"] - 5
+                for target in (st_prev, before):
+                    st = dict(target)
+                    if delivery == "in-process":
+                        _deliver_inprocess(prog, st, edit)
+                        if via_clone and edit[3] == "f":
+                            held = prog.f.partial(1)
+                    else:
+                        clear_process_state()
+                        prog.fresh().exec(text(st))
+                        if via_clone:
+                            held = prog.f.partial(1)
+                    out = run()
+                    ok = out == ("value", expected(st)) or (hidden and out == ("undeclared", None))
+                    check("never-stale-after-reverting-or-reapplying-an-edit", ok,
+                          {"edit": edit[0], "got": out, "expected": expected(st), "delivery": delivery, "via_clone": via_clone})
     finally:
         prog.close()
         sb.close()
@@ -159,19 +184,20 @@ def _histories(e1, e2, E, delivery, store, via_clone, gv_explicit, hidden):
 
 @obligation(
     "C01.edit_histories",
-    covers=tuple("edit:" + e[0] for e in EDITS) + ("cross-process", "hidden-dynamic-call"),
+    covers=tuple("edit:" + e[0] for e in EDITS) + ("cross-process", "hidden-dynamic-call", "edit-reverted"),
     split={"delivery": ["in-process", "cross-process"], "store": [0, 1, 2], "via_clone": [False, True]},
     bounds="program f(memento) -> h(plain, kw-only default) -> g(memento), tracked globals G (rebound) and GL (mutated in place), default "
            "value, tuple / set constants, lambda and nested def with default, optional direct edge, optional hidden dynamic call to q; "
            "histories of E edits out of %d kinds (E = 1 quick, 2 thorough), delivered in-process (re-executing only the changed definition / "
            "rebinding / mutating) or cross-process (emulated fresh process on the same store), called directly or through a held "
-           "partial() clone; 3 stores" % len(EDITS),
-    variables="choice: e1, e2 (edit kinds), g explicit-version bit, hidden-call bit",
+           "partial() clone; optionally the last edit is then reverted (A -> B -> A) and re-applied; nested scopes of f and h "
+           "bind the names of the module-level helpers / variables they use; 3 stores" % len(EDITS),
+    variables="choice: e1, e2 (edit kinds), g explicit-version bit, hidden-call bit, revert bit",
     tier_args={"quick": {"E": 1}, "thorough": {"E": 2}},
     budget_s={"quick": 170, "thorough": 1500},
     choice_vars=4,
 )
-def edit_histories(e1: int, e2: int, gv_explicit: bool, hidden: bool, delivery: str, store: int, via_clone: bool, E: int):
+def edit_histories(e1: int, e2: int, gv_explicit: bool, hidden: bool, revert: bool, delivery: str, store: int, via_clone: bool, E: int):
     e1 = pick(e1, len(EDITS))
     if E >= 2:
         e2 = pick(e2, len(EDITS))
@@ -188,8 +214,9 @@ def edit_histories(e1: int, e2: int, gv_explicit: bool, hidden: bool, delivery: 
         assume(EDITS[e1][0] != "body-constant-g")
         if E >= 2:
             assume(EDITS[e2][0] != "body-constant-g")
+    rv = True if revert else False
     with concrete_region():
-        _histories(e1, e2, E, delivery, store, via_clone, gx, hd)
+        _histories(e1, e2, E, delivery, store, via_clone, gx, hd, rv)
 
 
 # ------------------------------------------------------------------------------------------------
